@@ -2254,6 +2254,17 @@ class Evaluator:
                 return ("external", r[1])
             if r[0] == "const":
                 m, v = r[1], r[2]
+                for _hop in range(5):
+                    # NAME = OTHER_NAME: an alias of whatever OTHER_NAME is in that module
+                    if not isinstance(v, ast.Name):
+                        break
+                    r2 = self.model.resolve_name(m, v.id)
+                    if isinstance(r2, (Func, Cls)):
+                        return ("ref", r2.qname)
+                    if isinstance(r2, tuple) and r2 and r2[0] == "const":
+                        name, m, v = v.id, r2[1], r2[2]
+                        continue
+                    break
                 if isinstance(v, ast.Constant):
                     return const(v.value)
                 lit = self._constant_table(m, name, v)
@@ -2774,6 +2785,23 @@ class Evaluator:
             it = first_iter if (gi == 0 and first_iter is not None) else self.eval1(g.iter, s, func)
             pat = self._bind_target(g.target, s, it)
             self._type_bound(pat, it)
+            for c_ in g.ifs:
+                # `if (x := f(y)) is not None`: the element is built only when the test was made, so x is f(y) there
+                for n_ in ast.walk(c_):
+                    if isinstance(n_, ast.NamedExpr) and isinstance(n_.target, ast.Name):
+                        try:
+                            s.env[n_.target.id] = self.eval1(n_.value, s, func)
+                        except Budget:
+                            raise
+                # `(x := f(y)) is not None` as a conjunct of the filter: for the elements that pass, x is the not-None case of f(y)
+                conj_ = c_.values if isinstance(c_, ast.BoolOp) and isinstance(c_.op, ast.And) else [c_]
+                for q_ in conj_:
+                    if isinstance(q_, ast.Compare) and len(q_.ops) == 1 and isinstance(q_.ops[0], ast.IsNot) and isinstance(q_.left, ast.NamedExpr) \
+                            and isinstance(q_.left.target, ast.Name) and isinstance(q_.comparators[0], ast.Constant) and q_.comparators[0].value is None:
+                        v_ = s.env.get(q_.left.target.id)
+                        while v_ is not None and v_[0] == "ite" and len(v_) == 4 and (v_[2] == NONE) != (v_[3] == NONE):
+                            v_ = v_[3] if v_[2] == NONE else v_[2]  # every other case is None and does not pass the filter
+                            s.env[q_.left.target.id] = v_
             conds = tuple(self.as_cond(self.eval1(c, s, func)) for c in g.ifs)
             if it[0] == "call" and isinstance(it[1], str) and it[1].split(".")[-1] == "product" and len(it[2]) == 1 and dict(it[3]).get("repeat") == const(2) and len(it[3]) == 1:
                 it = ("call", it[1], (it[2][0], it[2][0]), ())  # product(A, repeat=2) = product(A, A)
